@@ -146,7 +146,16 @@ def _resolve_module_name(ref: str, module: str | None) -> str | None:
     module = ref.split(".", maxsplit=1)[0]
     if module != ref:
         return module
-    # Harder path, find the actual object in the stack frame, if possible.
+    # Harder path, find the module in the stack whose namespace binds this name:
+    #   that is where the reference can be evaluated, whatever object it is bound to
+    #   (an alias for `list[int]` is bound in the caller's module, not in `builtins`).
+    frame = inspect.currentframe()
+    while frame:
+        found = frame.f_globals.get("__name__")
+        if found and ref in frame.f_globals and not found.startswith(frames.PKG_NAME):
+            return found
+        frame = frame.f_back
+    # Otherwise, find the actual object in the stack frame, if possible.
     obj = frames.extract(ref)
     module = getattr(obj, "__module__", None)
     if module:
